@@ -157,10 +157,13 @@ def build(ctx, value, first=None):
                 nima.set_value(src, "other", "2")
             else:
                 src.rebuild()
+        if first is None or isinstance(first, (dict, bool)):
+            # a new sibling behind the deeper dotted member `n.deep.v` (own leg: a new key makes the set drop its recorded order)
+            src["n"]["fresh"] = value
+            return src, (lambda d: d["n"].get("fresh", "<n.fresh missing>"))
         src["m"]["v"] = value
         src["n"]["deep"]["v"] = value
-        src["n"]["fresh"] = value  # a new sibling behind the deeper dotted member `n.deep.v`
-        return src, (lambda d: d["m"]["v"] if same(d["m"]["v"], d["n"]["deep"]["v"]) and same(d["m"]["v"], d["n"].get("fresh", "<n.fresh missing>")) else ["top and nested differ", d["m"]["v"], d["n"]["deep"]["v"], d["n"].get("fresh", "<n.fresh missing>")])
+        return src, (lambda d: d["m"]["v"] if same(d["m"]["v"], d["n"]["deep"]["v"]) else ["top and nested differ", d["m"]["v"], d["n"]["deep"]["v"]])
     if ctx == "scope_setitem":
         src = nima.parse("let\n  k = 1;\nin\n{ a = k; }\n")
         src.expr.scope["v"] = value
